@@ -661,7 +661,8 @@ class Session(AbstractSession):
         if dest is not None:
             dest_field = val.field_from_parameter(self, "dest", dest)
 
-        fkey_index_spans = self.get_spans(field=index)
+        # an indexed string field reports its spans as a list: the span kernels take arrays
+        fkey_index_spans = np.asarray(self.get_spans(field=index))
 
         # execute the predicate (note that not every predicate requires a target)
         if target is None:
